@@ -455,7 +455,7 @@ pub fn info(tier: Tier, prop: &'static str, backend: Backend) -> CheckInfo {
                 _ => "",
             },
             if p.w_full { ", every pair of deviations, k in {2,3,5,8,10..16}" } else { ", k in {2,3,11,12,13,14}" },
-            if p.w_full { " and every pair of deviations, k in {3,6,10,12..16,18}" } else { ", k in {3,12,14,16}" },
+            if p.w_full { " (k in {3,6,10,12..16,18}) and every pair of deviations from the add and mul chains (k in {3,6,12,13,14,16})" } else { ", k in {3,12,14,16}" },
             if p.comments > 0 { format!(", C (every program of A(<= {}) containing a loop or an output with one comment string - multi-byte UTF-8, look-alike code points U+012B U+015B, ASCII+newline - inserted at every position)", p.comments) } else { String::new() },
             p.n_depth,
             p.depth,
